@@ -130,15 +130,6 @@ func c18InodeBody(t inodeType, blocksize int) {
 	vp.Unwind(20)
 	vp.AllocCap(16)
 	vp.AllocLimit(uint64(2*72 + c18Slack))
-	if blocksize == 0 {
-		// KF-C18-30: block size 0 is accepted by parseSuperblock (log2 check passes for 0): division by zero
-		vp.KnownPanic("KF-C18-30", "squashfs.parseBasicFile) | integer divide by zero")
-		vp.KnownPanic("KF-C18-30", "squashfs.parseExtendedFile) | integer divide by zero")
-	}
-	if blocksize == 1 {
-		// KF-C18-31: file size / block size >= 2^61: the block list length goes negative
-		vp.KnownPanic("KF-C18-31", "squashfs.parseFileBlockSizes) | makeslice")
-	}
 	vp.NoPanic()
 	body, extra, err := parseInodeBody(b, blocksize, t)
 	vp.AllowPanic()
@@ -155,20 +146,17 @@ func c18InodeBody(t inodeType, blocksize int) {
 	}
 }
 
-func VP_C18_sqs_inode_basic_dir()      { c18InodeBody(inodeBasicDirectory, 4096) }
-func VP_C18_sqs_inode_ext_dir()        { c18InodeBody(inodeExtendedDirectory, 4096) }
-func VP_C18_sqs_inode_basic_file()     { c18InodeBody(inodeBasicFile, 4096) }
-func VP_C18_sqs_inode_ext_file()       { c18InodeBody(inodeExtendedFile, 4096) }
-func VP_C18_sqs_inode_basic_file_bs0() { c18InodeBody(inodeBasicFile, 0) }
-func VP_C18_sqs_inode_ext_file_bs0()   { c18InodeBody(inodeExtendedFile, 0) }
-func VP_C18_sqs_inode_ext_file_bs1()   { c18InodeBody(inodeExtendedFile, 1) }
-func VP_C18_sqs_inode_basic_symlink()  { c18InodeBody(inodeBasicSymlink, 4096) }
-func VP_C18_sqs_inode_ext_symlink()    { c18InodeBody(inodeExtendedSymlink, 4096) }
-func VP_C18_sqs_inode_basic_char()     { c18InodeBody(inodeBasicChar, 4096) }
-func VP_C18_sqs_inode_ext_block()      { c18InodeBody(inodeExtendedBlock, 4096) }
-func VP_C18_sqs_inode_basic_fifo()     { c18InodeBody(inodeBasicFifo, 4096) }
-func VP_C18_sqs_inode_ext_socket()     { c18InodeBody(inodeExtendedSocket, 4096) }
-func VP_C18_sqs_inode_unknown()        { c18InodeBody(inodeType(15), 4096) }
+func VP_C18_sqs_inode_basic_dir()     { c18InodeBody(inodeBasicDirectory, 4096) }
+func VP_C18_sqs_inode_ext_dir()       { c18InodeBody(inodeExtendedDirectory, 4096) }
+func VP_C18_sqs_inode_basic_file()    { c18InodeBody(inodeBasicFile, 4096) }
+func VP_C18_sqs_inode_ext_file()      { c18InodeBody(inodeExtendedFile, 4096) }
+func VP_C18_sqs_inode_basic_symlink() { c18InodeBody(inodeBasicSymlink, 4096) }
+func VP_C18_sqs_inode_ext_symlink()   { c18InodeBody(inodeExtendedSymlink, 4096) }
+func VP_C18_sqs_inode_basic_char()    { c18InodeBody(inodeBasicChar, 4096) }
+func VP_C18_sqs_inode_ext_block()     { c18InodeBody(inodeExtendedBlock, 4096) }
+func VP_C18_sqs_inode_basic_fifo()    { c18InodeBody(inodeBasicFifo, 4096) }
+func VP_C18_sqs_inode_ext_socket()    { c18InodeBody(inodeExtendedSocket, 4096) }
+func VP_C18_sqs_inode_unknown()       { c18InodeBody(inodeType(15), 4096) }
 
 // VP_C18_sqs_directory: parseDirectory on directory table bytes of arbitrary length and content.
 func VP_C18_sqs_directory() {
@@ -360,9 +348,6 @@ func c18FileRead(blocksize int64, buflen int) {
 	vp.Unwind(6)
 	vp.AllocCap(buflen + 8)
 	vp.AllocLimit(limit)
-	if blocksize == 0 {
-		vp.KnownPanic("KF-C18-30", "squashfs.File).Read) | integer divide by zero")
-	}
 	// KF-C18-34: fragment offset + tail size beyond the fragment block
 	vp.KnownPanic("KF-C18-34", "squashfs.FileSystem).readFragment) | slice bounds out of range")
 	vp.NoPanic()
@@ -378,7 +363,6 @@ func c18FileRead(blocksize int64, buflen int) {
 }
 
 func VP_C18_sqs_file_read_4096() { c18FileRead(4096, 100) }
-func VP_C18_sqs_file_read_0()    { c18FileRead(0, 100) }
 
 // VP_C18_sqs_dirent_uid: directoryEntryFromInode with arbitrary uid/gid indexes into a 2-entry id table.
 func VP_C18_sqs_dirent_uid() {
@@ -454,10 +438,6 @@ func c18SqsRead(blocksize uint32, blocklog uint16, frags bool) {
 	vp.MaxLoop(140) // every metadata block consumes at least its 2-byte header of a 256-byte image
 	vp.AllocCap(vp.Bound("alloccap", 40, 80))
 	vp.AllocLimit(limit)
-	if blocksize == 0 {
-		// KF-C18-30: block size 0: division by zero when sizing the cache
-		vp.KnownPanic("KF-C18-30", "filesystem/squashfs.Read) | integer divide by zero")
-	}
 	vp.KnownPanic("KF-C18-33", "squashfs.FileSystem).readMetadata) | slice bounds out of range")
 	vp.NoPanic()
 	a0 := c18AllocBegin()
